@@ -459,7 +459,7 @@ func (f *FakeServer) ServeHTTP(w http.ResponseWriter, r *http.Request) {
 	json.Unmarshal(body, &m)
 	method, kind := classifyRPC(body)
 	act := f.plan(method, kind)
-	if f.Stateful {
+	if f.Stateful && act.Kind != "http" {
 		if method == "initialize" {
 			f.mu.Lock()
 			f.seq++
@@ -554,5 +554,59 @@ func (f *FakeServer) serveLegacy(w http.ResponseWriter, r *http.Request) {
 		}
 	default:
 		http.Error(w, "not found", 404)
+	}
+}
+
+func readAll(rc io.ReadCloser) ([]byte, error) {
+	defer rc.Close()
+	return io.ReadAll(rc)
+}
+
+// readAllAndRestore reads a request body and puts it back.
+func readAllAndRestore(r *http.Request) ([]byte, error) {
+	b, err := io.ReadAll(r.Body)
+	r.Body.Close()
+	r.Body = io.NopCloser(bytes.NewReader(b))
+	return b, err
+}
+
+func (f *FakeServer) openStreams() int {
+	f.mu.Lock()
+	defer f.mu.Unlock()
+	if f.Legacy {
+		return len(f.streams)
+	}
+	return int(f.GetOpen.Load())
+}
+
+// lastIssued returns the session id the fake issued last ("" if none).
+func (f *FakeServer) lastIssued() string {
+	f.mu.Lock()
+	defer f.mu.Unlock()
+	if f.seq == 0 || f.Legacy {
+		return ""
+	}
+	return fmt.Sprintf("fake-session-%04d-0123456789abcdef", f.seq)
+}
+
+// statusWriter records the status code of a response.
+type statusWriter struct {
+	http.ResponseWriter
+	status int
+}
+
+func (s *statusWriter) WriteHeader(c int) { s.status = c; s.ResponseWriter.WriteHeader(c) }
+func (s *statusWriter) Write(p []byte) (int, error) {
+	if s.status == 0 {
+		s.status = 200
+	}
+	return s.ResponseWriter.Write(p)
+}
+func (s *statusWriter) Flush() {
+	if s.status == 0 {
+		s.status = 200
+	}
+	if f, ok := s.ResponseWriter.(http.Flusher); ok {
+		f.Flush()
 	}
 }
